@@ -624,7 +624,9 @@ func genReq(t *rapid.T) Req {
 	add("Range", []string{"bytes=0-5", "bytes=0-5,10-", "bytes=-5", "bytes=5-1", "bytes=", "bytes=a-b", "items=0-1", "bytes=0-99999999999999999999", "bytes=-", "bytes=0-0,-1", "=", "bytes=1-2-3"})
 	add("Accept", []string{"text/*;q=0.5, */*", "*/*;q=0", "text/html;level=1;q=0.9, application/json", `text/plain;title="a, b";q=1`, ";q=", ",,,", "a/b;q=1.5", strings.Repeat("a/b,", 200),
 		// parameterised ranges that no offer satisfies in front of one that matches, several parameterised ranges at once
-		"text/plain;format=flowed, */*", "text/html;level=1, text/html;level=2;q=0.5, */*;q=0.1", "application/json;v=2, text/*", `text/html;a="x\"y";b=c, text/plain;format=fixed;q=0.9, */*;q=0.8`})
+		"text/plain;format=flowed, */*", "text/html;level=1, text/html;level=2;q=0.5, */*;q=0.1", "application/json;v=2, text/*", `text/html;a="x\"y";b=c, text/plain;format=fixed;q=0.9, */*;q=0.8`,
+		// parameters that need cleaning up (empty ones, tabs) around quoted strings that are cut off - behind a backslash too
+		`text/html;;a="b\`, "text/html;\ta=\"b\\", `text/plain;;a="b`, `*/*;;a="\\\`, `text/html; ;q="`, "text/html;;a=\"b\\\"\\"})
 	add("Accept-Charset", []string{"utf-8, iso-8859-1;q=0.5", "*", ";;;"})
 	add("Accept-Encoding", []string{"gzip, br;q=0", "identity;q=0", ""})
 	add("Accept-Language", []string{"en-US,en;q=0.9,de;q=0.8", "*;q=0"})
